@@ -3,7 +3,8 @@
    checker run on the plans the Go code actually produced (any overfetch, any tie-breaking of its unstable sort). *)
 From Coq Require Import NArith ZArith List Permutation.
 Import ListNotations.
-From PM Require Import Model.Varint Model.Directory Model.Extract Model.ExtractCmd Proofs.Extract Proofs.Relevant Proofs.Reencode.
+From PM Require Import Model.Varint Model.Directory Model.Extract Model.ExtractCmd Proofs.Extract Proofs.Relevant Proofs.Reencode Proofs.ExtractCmdThm.
+From PM Require Import Model.Header Model.TileId Model.FindTile Model.Resolver Model.Archive.
 Open Scope N_scope.
 
 (* the restriction is exact: a tile id is addressed by the kept tile entries, with some offset and length, exactly when the source
@@ -16,12 +17,27 @@ Proof. exact relevant_tiles_spec. Qed.
 (* byte-identical content: after copying the source ranges listed by the re-encoding (one request per range; merged requests write the
    same bytes by C07_plan_exact), every re-encoded entry keeps tile id, length and run length and points at the bytes its source entry
    pointed at; shared contents are copied once *)
-Theorem C07_content_preserved : forall (S D0:mem) dir out ranges total addr cont,
+Theorem C07_content_preserved : forall (S D0:mem) bound dir out ranges total addr cont,
   (forall e1 e2, In e1 dir -> In e2 dir -> off e1 = off e2 -> len e1 = len e2) ->
+  (forall e, In e dir -> off e + len e <= bound) ->
   reencode dir = (out, ranges, total, addr, cont) ->
   Forall2 (fun e e' => tid e' = tid e /\ len e' = len e /\ run e' = run e /\
                        forall k, k < len e -> exec_all S (map trivial_plan ranges) D0 (off e' + k) = S (off e + k) /\ off e' + len e <= total) dir out.
-Proof. intros S D0 dir out ranges total addr cont Hs H. eapply reencode_content; eassumption. Qed.
+Proof. intros S D0 bound dir out ranges total addr cont Hs Hb H. eapply reencode_content; eassumption. Qed.
+
+(* the whole command without a region, on abstract archives: the zoom range is the requested one clamped to the source's, the kept entries
+   are the restriction of the source's to the tile-ID block of that range (C07_restriction_exact), and every kept entry has the tile ids,
+   length, run length and BYTES of its source entry; the metadata is the source's *)
+Theorem C07_extract_content : forall a minz maxz a',
+  (forall e1 e2, In e1 (a_entries a) -> In e2 (a_entries a) -> off e1 = off e2 -> len e1 = len e2) ->
+  (forall e, In e (a_entries a) -> off e + len e <= blen (a_data a)) ->
+  extract_model a minz maxz = XOk a' ->
+  exists lo hi, clamp_zooms (a_hdr a) minz maxz = (lo, hi) /\
+  let b := [(zxy_to_id (Z.to_N lo) 0 0, zxy_to_id (w8 (Z.to_N hi + 1)) 0 0)] in
+  let tiles := fst (relevant_entries b (Z.to_N hi) (a_entries a)) in
+  Forall2 (fun e e' => tid e' = tid e /\ len e' = len e /\ run e' = run e /\ content_at (a_data a') e' = content_at (a_data a) e) tiles (a_entries a') /\
+  a_meta a' = a_meta a.
+Proof. exact extract_content. Qed.
 
 (* every overfetch setting writes the same bytes: whatever plans cover the range list (merged or not), executing them
    writes exactly what one request per range writes *)
@@ -59,5 +75,6 @@ Proof. vm_compute. reflexivity. Qed.
 
 Print Assumptions C07_restriction_exact.
 Print Assumptions C07_content_preserved.
+Print Assumptions C07_extract_content.
 Print Assumptions C07_plan_exact.
 Print Assumptions C07_schedule_independent.
